@@ -210,7 +210,13 @@ func (d *dec) chunkedData(o *Object, sp *dataspace, lay *layoutMsg, what string)
 			}
 		}
 		b := d.bytesAt(c.Addr, uint64(c.Size), cw)
-		if len(o.Filters) > 0 {
+		partial := false
+		for k := 0; k < rank; k++ {
+			if c.Offset[k]+o.ChunkDims[k] > sp.dims[k] {
+				partial = true
+			}
+		}
+		if len(o.Filters) > 0 && !(partial && lay.version == 4 && lay.flags&1 != 0) { // flag bit 0: partial edge chunks are stored unfiltered
 			var err string
 			b, err = d.unfilter(o, b, c.FilterMask, chunkBytes, cw)
 			if err != "" {
@@ -478,4 +484,3 @@ func fletcherLib(data []byte) uint32 {
 	}
 	return s2<<16 | s1
 }
-
